@@ -31,7 +31,7 @@ add("C04", "exploration",
     "property-based testing (rapid): round-trip + differential against an independent codec",
     "DESIGN.md C04")
 add("C05", "exploration",
-    "Generated-input search over geometry models with all finite float64 classes x AppendWKT prefixes x token-level re-spellings (keyword case, separators, bare and parenthesised MultiPoint members mixed in one text, plain and exponent numerals mixed) x trailing tokens. Oracles: independent OGC-grammar WKT parser/printer, structural bit-wise comparison, a shortest-decimal test that tries the one-digit-shorter candidates, the independent WKB writer for WKT/WKB agreement; plus enumerated zero values of every Go type, collections with 31..200 members, and hostile texts (NaN/Inf numerals, mixed dimensions) that must be rejected.",
+    "Generated-input search over geometry models with all finite float64 classes x AppendWKT prefixes x token-level re-spellings (keyword case, separators, bare and parenthesised MultiPoint members mixed in one text, plain and exponent numerals mixed) x trailing tokens. Oracles: independent OGC-grammar WKT parser/printer, structural bit-wise comparison, a shortest-decimal test that tries the one-digit-shorter candidates, the independent WKB writer for WKT/WKB agreement; closed sequences whose closing position equals the first only numerically (0 against -0), polygons holding empty rings beside non-empty ones (EMPTY at the ring level); plus enumerated zero values of every Go type, collections with 31..200 members, and hostile texts (NaN/Inf numerals, mixed dimensions) that must be rejected.",
     "Trusted: independent WKT grammar (internal/codec/wkt.go), strconv.ParseFloat correct rounding, rapid.",
     "property-based testing (rapid): round-trip + grammar-based metamorphic re-spelling",
     "DESIGN.md C05")
@@ -43,7 +43,7 @@ add("C18", "exploration",
 
 
 add("C06", "exploration",
-    "Three generated families: valid geometry models -> MarshalJSON checked by encoding/json and an RFC 7946 structure validator, and UnmarshalGeoJSON / json.Unmarshal into Geometry and all 7 concrete types (destinations pre-populated with another value) compared with the harness-computed image (M dropped, empty Points omitted from MultiPoints, Z kept iff a position exists); grammar-generated GeoJSON documents (positions of length 0..5, wrong nesting, non-numeric elements, null/missing members, unknown types) with the expected outcome computed from the document; Features/FeatureCollections with generated ids, properties and foreign members (names incl. ones that need JSON escaping) compared as decoded JSON, decode destinations pre-populated with another feature / longer collection, malformed features rejected.",
+    "Three generated families: valid geometry models -> MarshalJSON checked by encoding/json and an RFC 7946 structure validator, and UnmarshalGeoJSON / json.Unmarshal into Geometry and all 7 concrete types (destinations pre-populated with another value) (a null document matches none); the bytes MarshalJSON returned are re-read after further direct MarshalJSON calls; results compared with the harness-computed image (M dropped, empty Points omitted from MultiPoints, Z kept iff a position exists); grammar-generated GeoJSON documents (positions of length 0..5, wrong nesting, non-numeric elements, null/missing members, unknown types) with the expected outcome computed from the document; Features/FeatureCollections with generated ids, properties and foreign members (names incl. ones that need JSON escaping) compared as decoded JSON, decode destinations pre-populated with another feature / longer collection, malformed features rejected.",
     "Trusted: encoding/json, the RFC 7946 validator and document oracle in props/c06_test.go. Documents RFC 7946 leaves open (null coordinates, GeometryCollection without geometries, nulls nested in coordinates) are only required to be handled without panic / to decode to the empty geometry.",
     "property-based testing (rapid): round-trip against a format-loss model + grammar-based document generation",
     "DESIGN.md C06")
@@ -62,7 +62,7 @@ add("C08", "fault_enumeration",
 
 
 add("C03", "exploration",
-    "Generated-input search on dense integer grids (side 3..6) with geometries built without validation: raw rings/lines (random or angularly sorted lattice points, reused vertices, unclosed rings, repeated vertices), valid geometries traced from triangulated-grid subsets with one breaking edit, shells with holes traced from triangle subsets (touching chains/cycles of holes: multi-touch, nested, disconnected interior), NaN/Inf injection; plus an exhaustive sub-space (every triangle/rectangle on a 4x4 grid as an extra ring, every start vertex and direction). The verdict of Validate (on Geometry and the concrete type) must equal a definitional oracle in exact rational arithmetic and must not change under ring rotation/reversal, hole/member permutation, translation, reflection; IsSimple/IsRing/IsClosed must equal their definitional values; the validating WKT/WKB/GeoJSON/TWKB decoders must accept exactly the valid inputs; the verdict must not change when Z/M payload is added; an inscribed family (a ring through corners/edge midpoints of another, same bounding box).",
+    "Generated-input search on dense integer grids (side 3..6) with geometries built without validation: raw rings/lines (random or angularly sorted lattice points, reused vertices, unclosed rings, repeated vertices), valid geometries traced from triangulated-grid subsets with one breaking edit, shells with holes traced from triangle subsets (touching chains/cycles of holes: multi-touch, nested, disconnected interior), NaN/Inf injection (up to three values, also in different positions), chains of holes linked vertex to vertex from the shell; plus an exhaustive sub-space (every triangle/rectangle on a 4x4 grid as an extra ring, every start vertex and direction) and wide polygons / MultiPolygons (127..257 rings / members; the last one duplicated, outside, edge-sharing, overlapping, nested or corner-touching). Simplify, the one validating operation, must fail exactly when the oracle rejects what it returns with NoValidate. The verdict of Validate (on Geometry and the concrete type) must equal a definitional oracle in exact rational arithmetic and must not change under ring rotation/reversal, hole/member permutation, translation, reflection; IsSimple/IsRing/IsClosed must equal their definitional values; the validating WKT/WKB/GeoJSON/TWKB decoders must accept exactly the valid inputs; the verdict must not change when Z/M payload is added; an inscribed family (a ring through corners/edge midpoints of another, same bounding box).",
     "Trusted: the exact kernel (internal/exact: rational arithmetic, pairwise segment intersection, slab-cell union-find for interior connectedness), unit-tested on hand cases; its invariance under the representation change is asserted per case.",
     "property-based testing (rapid) + exhaustive small-space enumeration vs an exact-arithmetic definitional oracle; metamorphic representation changes",
     "DESIGN.md C03")
@@ -74,7 +74,7 @@ add("C01", "exploration",
     "property-based testing (rapid) vs an exact-arithmetic arrangement oracle",
     "DESIGN.md C01")
 add("C02", "exploration",
-    "Same pair generator (lattice, hole-nesting and general-position float families) with pairwise exactly-disjoint collection members. DE-9IM oracle: every cell of the exact arrangement is located in I/B/E of each operand by the OGC definitions and M[x][y] is the largest dimension of a cell located (x,y). Relate(a,b) must equal it, Relate(b,a) its transpose, the nine named predicates the documented pattern lists evaluated by an independent matcher (Crosses/Overlaps with dimensions that ignore empty members), plus Contains/Within, Covers/CoveredBy, Disjoint/Intersects, Equals(a,a) relations; RelateMatches against the independent matcher on random (also malformed) matrix/pattern strings. Evidence reports the number of distinct matrices seen.",
+    "Same pair generator (lattice, hole-nesting and general-position float families; identical operands also spelled as a collection with an empty member of a higher dimension or with every line traced out and partly back) with pairwise exactly-disjoint collection members. DE-9IM oracle: every cell of the exact arrangement is located in I/B/E of each operand by the OGC definitions and M[x][y] is the largest dimension of a cell located (x,y). Relate(a,b) must equal it, Relate(b,a) its transpose, the nine named predicates the documented pattern lists evaluated by an independent matcher (Crosses/Overlaps with dimensions that ignore empty members), plus Contains/Within, Covers/CoveredBy, Disjoint/Intersects, Equals(a,a) relations; RelateMatches against the independent matcher on random (also malformed) matrix/pattern strings. Evidence reports the number of distinct matrices seen.",
     "Trusted: exact kernel. Strict domain only.",
     "property-based testing (rapid) vs an exact-arithmetic DE-9IM oracle",
     "DESIGN.md C02")
@@ -101,17 +101,17 @@ add("C13", "exploration",
     "property-based testing (rapid) + exhaustive small-space enumeration vs an exact characterisation",
     "DESIGN.md C13")
 add("C14", "exploration",
-    "Valid geometries of every type (triangulated-grid shapes and comb / side-by-side-hole shapes; lattice and exact dyadic float images): Area vs the exact sum of slab trapezoids (cross-checked with the exact shoelace value), signed area after ForceCCW/ForceCW/Reverse, Area(WithTransform f) = TransformXY(f).Area() = area x |det f|, SignedArea and WithTransform together in both argument orders = signed area x det f, Length homogeneous under exact scalings by 2^-600 and 2^+520, Length and length-weighted centroid at 200 bits, exact area-weighted centroid / point average, on Geometry and the concrete types; invariance under ring rotation, reversal, member permutation, Z/M; translation; additivity.",
+    "Valid geometries of every type (triangulated-grid shapes and comb / side-by-side-hole shapes; lattice and exact dyadic float images): Area vs the exact sum of slab trapezoids (cross-checked with the exact shoelace value), signed area after ForceCCW/ForceCW/Reverse, Area(WithTransform f) = TransformXY(f).Area() = area x |det f| for affine f and = TransformXY(f).Area() for a non-affine f, SignedArea and WithTransform together in both argument orders = signed area x det f, Length homogeneous under exact scalings by 2^-600 and 2^+520, Length and length-weighted centroid at 200 bits, exact area-weighted centroid / point average, on Geometry and the concrete types; invariance under ring rotation, reversal, member permutation, Z/M; translation; additivity. Enumerated: polygons with 127..257 holes, Multi* with as many members.",
     "Trusted: exact kernel. Tolerance 1e-9 x magnitude (squared for area).",
     "property-based testing (rapid) vs exact-arithmetic measures + metamorphic relations",
     "DESIGN.md C14")
 add("C15", "exploration",
-    "Valid geometries of every type (triangulated-grid shapes and comb / side-by-side-hole shapes whose scan lines see several solid stretches and wider gaps): Boundary(g) has lower dimension or is empty, an empty boundary itself, every vertex and segment midpoint of it is located Boundary in g by the exact OGC locator, its points are exactly the odd-degree end points and its segments exactly g's ring segments, a collection's boundary is the ordered list of its members' non-empty boundaries; boundary and point on surface do not change when Z/M payload is added; PointOnSurface(g) is empty iff g is, finite, XY, exactly interior for areal g and on a member of the highest dimension otherwise; Dimension/IsEmpty equal the structural values.",
+    "Valid geometries of every type (triangulated-grid shapes and comb / side-by-side-hole shapes whose scan lines see several solid stretches and wider gaps): Boundary(g) has lower dimension or is empty, an empty boundary itself, every vertex and segment midpoint of it is located Boundary in g by the exact OGC locator, its points are exactly the odd-degree end points and its segments exactly g's ring segments, a collection's boundary is the ordered list of its members' non-empty boundaries; boundary and point on surface do not change when Z/M payload is added; PointOnSurface(g) is empty iff g is, finite, XY, exactly interior for areal g and on a member of the highest dimension otherwise; Dimension/IsEmpty equal the structural values. Enumerated: stars of 64..257 lines sharing one end point.",
     "Trusted: exact kernel.",
     "property-based testing (rapid) vs the exact OGC point locator",
     "DESIGN.md C15")
 add("C16", "exploration",
-    "Geometries of 7 types x 4 coordinate types with unique per-vertex Z/M tags (empties, nesting, zero values): a recursive walker asserts one CoordinatesType() for the geometry and everything reachable after construction and after every operation; mixed-type constructors reduce to the common subset; Z/M fields a coordinate type does not have read zero; Slice views never write to their parent sequence; the flat-coordinate constructors build the same geometries; the Multi*/collection constructors leave the caller's slice alone; NewPolygon reduces rings of different types; ring closing positions may carry Z/M of their own; ForceCoordinatesType/Force2D equal the harness model exactly; Reverse/ForceCW/ForceCCW/AsMulti*/Dump keep the multiset of full positions and every line/ring as it was or exactly reversed; set operations with an empty operand in either position return XY; DumpCoordinates order; TransformXY/SnapToGrid touch XY only; Densify keeps tagged originals and interpolates Z/M; Simplify emits only tagged originals; WKB/WKT round trips; XY-only operations return XY throughout.",
+    "Geometries of 7 types x 4 coordinate types with unique per-vertex Z/M tags (empties, nesting, zero values): a recursive walker asserts one CoordinatesType() for the geometry and everything reachable after construction and after every operation; mixed-type constructors reduce to the common subset; Z/M fields a coordinate type does not have read zero; Slice views never write to their parent sequence; the flat-coordinate constructors build the same geometries and, like the Multi*/collection constructors, neither keep nor change the caller's slices; slices returned by accessors (Dump, DumpRings, ...) are the caller's; Centroid/ConvexHull/PointOnSurface/Envelope of the concrete types agree with Geometry's; NewPolygon reduces rings of different types; ring closing positions may carry Z/M of their own; ForceCoordinatesType/Force2D equal the harness model exactly; Reverse/ForceCW/ForceCCW/AsMulti*/Dump keep the multiset of full positions and every line/ring as it was or exactly reversed; set operations with an empty operand in either position return XY; DumpCoordinates order; TransformXY/SnapToGrid touch XY only; Densify keeps tagged originals and interpolates Z/M; Simplify emits only tagged originals; WKB/WKT round trips; XY-only operations return XY throughout.",
     "Trusted: gm model conversion (read-back checked).",
     "property-based testing (rapid): tagged-vertex tracking against a harness model",
     "DESIGN.md C16")
@@ -121,7 +121,7 @@ add("C17", "exploration",
     "property-based testing (rapid) vs exact-arithmetic contracts",
     "DESIGN.md C17")
 add("C19", "exploration",
-    "Nine projections x drawn configurations (centre/origin incl. exactly and nearly polar centres for the azimuthal ones, standard parallels in both hemispheres and orders, radius, zoom; setters called in either order, after a previous configuration, or left at their documented defaults) x points (centre itself, standard parallels, graticule, random) in each implementation's well-conditioned domain, plus the enumerated graticule for fixed configurations: Forward finite, Reverse(Forward(p)) within 1e-9 degrees (NaN fails), equal-area / conformal / equidistant character by central-difference Jacobians, standard parallels true to scale, web Mercator square/centre/orientation.",
+    "Nine projections x drawn configurations (centre/origin incl. exactly and nearly polar centres for the azimuthal ones, standard parallels in both hemispheres and orders, radius, zoom; setters called in either order, after a previous configuration, with the projection used between two configurations, or left at their documented defaults) x points (centre itself, standard parallels, graticule, random) in each implementation's well-conditioned domain, plus the enumerated graticule for fixed configurations: Forward finite, Reverse(Forward(p)) within 1e-9 degrees (NaN fails), equal-area / conformal (rotation, not reflection) / equidistant character by central-difference Jacobians, standard parallels true to scale, web Mercator square/centre/orientation.",
     "Trusted: math package. Singular configurations (equal or symmetric standard parallels, cos(p1)=0) are excluded.",
     "property-based testing (rapid) + graticule enumeration: round-trip and metamorphic Jacobian identities",
     "DESIGN.md C19")
